@@ -14,7 +14,7 @@ use std::{
 
 use serde_json::json;
 use trustfall_core::{
-    interpreter::{Adapter, AsVertex, CandidateValue, ContextIterator, ContextOutcomeIterator, EdgeInfo, ResolveEdgeInfo, ResolveInfo, VertexInfo, VertexIterator},
+    interpreter::{Adapter, AsVertex, CandidateValue, ContextIterator, ContextOutcomeIterator, EdgeInfo, NeighborInfo, ResolveEdgeInfo, ResolveInfo, VertexInfo, VertexIterator},
     ir::{Argument, EdgeParameters, FieldValue as FV, IndexedQuery, Operation, Vid},
 };
 
@@ -59,12 +59,14 @@ pub struct Pruner {
     pub active: RefCell<BTreeSet<(usize, Hint)>>,
     /// dynamic hints offered: (point, property, destination vid)
     pub active_dyn: RefCell<BTreeSet<(usize, String, Vid)>>,
+    /// for nested dynamic hints: (point, label) -> the vid whose edge was being resolved (the execution frontier)
+    pub frontier: RefCell<BTreeMap<(usize, String), Vid>>,
     pub dropped: Cell<u64>,
 }
 
 impl Pruner {
     pub fn new(world: Arc<World>, ds: Arc<Dataset>, mode: Mode) -> Self {
-        Pruner { inner: GraphAdapter::new(world.clone(), ds.clone()), world, ds, mode, points: Cell::new(0), active: Default::default(), active_dyn: Default::default(), dropped: Cell::new(0) }
+        Pruner { inner: GraphAdapter::new(world.clone(), ds.clone()), world, ds, mode, points: Cell::new(0), active: Default::default(), active_dyn: Default::default(), frontier: Default::default(), dropped: Cell::new(0) }
     }
     fn acts(&self, point: usize, h: Hint) -> bool {
         match self.mode {
@@ -74,6 +76,11 @@ impl Pruner {
             Mode::OnlyDyn(..) => false,
             Mode::AllExceptDyn(_) => true,
         }
+    }
+    /// mandatory-edge traversal is needed both for the MandatoryEdge hint itself and to apply the
+    /// dynamic hint of a nested vertex (label "Vid(n)/prop") on its own
+    fn acts_mandatory(&self, point: usize) -> bool {
+        self.acts(point, Hint::MandatoryEdge) || matches!(self.mode, Mode::OnlyDyn(p, label) if p == point && label.contains('/'))
     }
     fn acts_dyn(&self, point: usize, prop: &str) -> bool {
         match self.mode {
@@ -94,7 +101,7 @@ impl Pruner {
     }
 
     /// Does vertex `v` (statically typed `ty`) survive the static / coercion / mandatory-edge hints of `info`?
-    fn survives_static(&self, point: usize, v: usize, ty: &str, info: &impl VertexInfo, depth: usize) -> bool {
+    fn survives_static(&self, point: usize, v: usize, ty: &str, info: &impl VertexInfo, depth: usize, nested_dyn: &NestedDyn) -> bool {
         let ty = info.coerced_to_type().map(|t| t.to_string()).unwrap_or_else(|| ty.to_string());
         // `coerced_to_type()` is deliberately not acted upon: the property speaks of candidate
         // values and mandatory edges only, and the hint carries no "binding" information (under
@@ -112,17 +119,17 @@ impl Pruner {
                 let edges: Vec<EdgeInfo> = info.mandatory_edges_with_name(&e).collect();
                 for ei in edges {
                     self.active.borrow_mut().insert((point, Hint::MandatoryEdge));
-                    if !self.acts(point, Hint::MandatoryEdge) {
+                    if !self.acts_mandatory(point) {
                         continue;
                     }
                     // the vertex must have a neighbour along this edge that itself survives the
-                    // destination's static hints (one level of nesting)
+                    // destination's hints (static candidates, its own mandatory edges, and the
+                    // dynamic candidates resolved for this context), up to three levels deep
                     let sm = &self.world.schema;
                     let to_ty = sm.field(&ty, &e).map(|f| f.ty.base().to_string()).unwrap_or_default();
                     let ns = self.world.neighbors(&self.ds, v, &ty, &e, &params_map(ei.parameters()));
                     let dest = ei.destination();
-                    // only static + coercion hints at the nested level
-                    let ok = ns.iter().any(|n| self.survives_nested(point, *n, &to_ty, dest));
+                    let ok = ns.iter().any(|n| self.survives_nested(point, *n, &to_ty, dest, nested_dyn, 1));
                     if !ok {
                         return false;
                     }
@@ -132,7 +139,7 @@ impl Pruner {
         true
     }
 
-    fn survives_nested(&self, point: usize, v: usize, ty: &str, info: &impl VertexInfo) -> bool {
+    fn survives_nested(&self, point: usize, v: usize, ty: &str, info: &NeighborInfo, nested_dyn: &NestedDyn, level: usize) -> bool {
         let ty = info.coerced_to_type().map(|t| t.to_string()).unwrap_or_else(|| ty.to_string());
         for p in self.scalar_props(&ty) {
             if let Some(c) = info.statically_required_property(&p) {
@@ -140,11 +147,48 @@ impl Pruner {
                     return false;
                 }
             }
+            if let Some(c) = nested_dyn.get(&(format!("{:?}", info.vid()), p.clone())) {
+                if !cand_contains(c, &self.ds.prop(v, &p)) {
+                    return false;
+                }
+            }
         }
-        let _ = point;
+        if level < 3 {
+            for e in self.edge_names(&ty) {
+                let edges: Vec<EdgeInfo> = info.mandatory_edges_with_name(&e).collect();
+                for ei in edges {
+                    let to_ty = self.world.schema.field(&ty, &e).map(|f| f.ty.base().to_string()).unwrap_or_default();
+                    let ns = self.world.neighbors(&self.ds, v, &ty, &e, &params_map(ei.parameters()));
+                    if !ns.iter().any(|n| self.survives_nested(point, *n, &to_ty, ei.destination(), nested_dyn, level + 1)) {
+                        return false;
+                    }
+                }
+            }
+        }
         true
     }
+
+    /// Destinations reachable from `info` through mandatory edges (up to three levels), with the
+    /// static type of each.
+    fn nested_destinations(&self, ty: &str, info: &NeighborInfo, level: usize, out: &mut Vec<(NeighborInfo, String)>) {
+        let ty = info.coerced_to_type().map(|t| t.to_string()).unwrap_or_else(|| ty.to_string());
+        if level >= 3 {
+            return;
+        }
+        for e in self.edge_names(&ty) {
+            let edges: Vec<EdgeInfo> = info.mandatory_edges_with_name(&e).collect();
+            for ei in edges {
+                let to_ty = self.world.schema.field(&ty, &e).map(|f| f.ty.base().to_string()).unwrap_or_default();
+                out.push((ei.destination().clone(), to_ty.clone()));
+                self.nested_destinations(&to_ty, ei.destination(), level + 1, out);
+            }
+        }
+    }
 }
+
+/// Per-context dynamic candidates of vertices nested below the edge being resolved:
+/// (Debug form of the vertex's Vid, property) -> candidate.
+pub type NestedDyn = BTreeMap<(String, String), CandidateValue<FV>>;
 
 impl Adapter<'static> for Pruner {
     type Vertex = V;
@@ -154,7 +198,8 @@ impl Adapter<'static> for Pruner {
         self.points.set(point + 1);
         let ty = self.world.schema.root_type().field(edge_name).map(|f| f.ty.base().to_string()).unwrap_or_default();
         let vs: Vec<V> = self.inner.resolve_starting_vertices(edge_name, parameters, info).collect();
-        let kept: Vec<V> = vs.into_iter().filter(|v| self.survives_static(point, v.0 as usize, &ty, info, 0)).collect();
+        let none = NestedDyn::new();
+        let kept: Vec<V> = vs.into_iter().filter(|v| self.survives_static(point, v.0 as usize, &ty, info, 0, &none)).collect();
         Box::new(kept.into_iter())
     }
 
@@ -195,6 +240,32 @@ impl Adapter<'static> for Pruner {
             }
         }
 
+        // dynamic candidates of vertices nested below the destination through mandatory edges
+        let mut nested_dyn: Vec<NestedDyn> = ctxs.iter().map(|_| NestedDyn::new()).collect();
+        if self.acts_mandatory(point) {
+            let mut nested = vec![];
+            self.nested_destinations(&to_ty, &dest, 0, &mut nested);
+            for (ninfo, nty) in &nested {
+                let nty = ninfo.coerced_to_type().map(|t| t.to_string()).unwrap_or_else(|| nty.clone());
+                for p in self.scalar_props(&nty) {
+                    if let Some(drv) = ninfo.dynamically_required_property(&p) {
+                        let label = format!("{:?}/{p}", ninfo.vid());
+                        self.active_dyn.borrow_mut().insert((point, label.clone(), ninfo.vid()));
+                        self.frontier.borrow_mut().insert((point, label.clone()), info.destination_vid());
+                        if !self.acts_dyn(point, &label) {
+                            continue;
+                        }
+                        let resolved: Vec<_> = drv.resolve(&self.inner, Box::new(ctxs.into_iter())).collect();
+                        ctxs = Vec::with_capacity(resolved.len());
+                        for (k, (ctx, cand)) in resolved.into_iter().enumerate() {
+                            nested_dyn[k].insert((format!("{:?}", ninfo.vid()), p.clone()), cand);
+                            ctxs.push(ctx);
+                        }
+                    }
+                }
+            }
+        }
+
         let mut out: Vec<(_, VertexIterator<'static, V>)> = vec![];
         let inner_results: Vec<_> = self.inner.resolve_neighbors(Box::new(ctxs.into_iter()), type_name, edge_name, parameters, info).collect();
         for (k, (ctx, ns)) in inner_results.into_iter().enumerate() {
@@ -204,7 +275,7 @@ impl Adapter<'static> for Pruner {
                 .into_iter()
                 .filter(|n| {
                     let v = n.0 as usize;
-                    if !self.survives_static(point, v, &to_ty, &dest, 0) {
+                    if !self.survives_static(point, v, &to_ty, &dest, 0, &nested_dyn[k]) {
                         return false;
                     }
                     dyn_cands[k].iter().all(|(p, c)| cand_contains(c, &self.ds.prop(v, p)))
@@ -276,7 +347,8 @@ pub fn check_case(ctx: &Ctx, uni: &Universe, case: &Case<'_>, c: &Counters, samp
         let name: &'static str = intern(prop);
         if !agrees(Mode::OnlyDyn(*p, name)) {
             dyn_culprits.push((*p, name, *vid));
-            culprits.push(format!("resolution point {p}, DynamicProp({prop}) selected filter `{}`", selected_dynamic_filter(&case.cq.iq, *vid, prop)));
+            let fr = all.frontier.borrow().get(&(*p, prop.clone())).copied().unwrap_or(*vid);
+            culprits.push(format!("resolution point {p}, DynamicProp({prop}) selected filter `{}`", selected_dynamic_filter(&case.cq.iq, *vid, fr, prop)));
         }
     }
     let mut rep = case.replay();
@@ -288,7 +360,10 @@ pub fn check_case(ctx: &Ctx, uni: &Universe, case: &Case<'_>, c: &Counters, samp
     // upper-bounded. A case is attributed to it only if (1) every culprit is a dynamic hint whose
     // selected filter (documented priority: =, one_of, first ordering filter, !=) is `>=`, and
     // (2) with exactly those hints ignored and all others acted upon, results agree again.
-    let only_gte = culprits.len() == dyn_culprits.len() && !dyn_culprits.is_empty() && dyn_culprits.iter().all(|(_, prop, vid)| selected_dynamic_filter(&case.cq.iq, *vid, prop) == ">=");
+    let only_gte = culprits.len() == dyn_culprits.len() && !dyn_culprits.is_empty() && dyn_culprits.iter().all(|(p, prop, vid)| {
+        let fr = all.frontier.borrow().get(&(*p, prop.to_string())).copied().unwrap_or(*vid);
+        selected_dynamic_filter(&case.cq.iq, *vid, fr, prop) == ">="
+    });
     if only_gte {
         let ex: &'static [(usize, &'static str)] = Box::leak(dyn_culprits.iter().map(|(p, n, _)| (*p, *n)).collect::<Vec<_>>().into_boxed_slice());
         if agrees(Mode::AllExceptDyn(ex)) {
@@ -316,7 +391,8 @@ fn intern(s: &str) -> &'static str {
 /// Which filter `dynamically_required_property(prop)` materialises at vertex `vid`, by the
 /// priority documented in hints/vertex_info.rs: `=`, then `one_of`, then the first ordering
 /// filter, then the first supported one; only filters whose right operand is a tag count.
-pub fn selected_dynamic_filter(iq: &IndexedQuery, vid: Vid, prop: &str) -> &'static str {
+pub fn selected_dynamic_filter(iq: &IndexedQuery, vid: Vid, frontier: Vid, prop: &str) -> &'static str {
+    let prop = prop.rsplit('/').next().unwrap_or(prop);
     let Some(comp) = iq.vids.get(&vid) else { return "?" };
     let Some(v) = comp.vertices.get(&vid) else { return "?" };
     use trustfall_core::ir::LocalField;
@@ -333,10 +409,10 @@ pub fn selected_dynamic_filter(iq: &IndexedQuery, vid: Vid, prop: &str) -> &'sta
         })
     }
     // only tags whose vertex (or fold) has already been resolved when the edge into `vid` is being
-    // resolved count: the execution frontier there is Excluded(vid)
+    // resolved count: the execution frontier there is Excluded(frontier)
     let resolved = |r: &Argument| match r {
-        Argument::Tag(trustfall_core::ir::FieldRef::ContextField(c)) => c.vertex_id < vid,
-        Argument::Tag(trustfall_core::ir::FieldRef::FoldSpecificField(f)) => f.fold_root_vid < vid,
+        Argument::Tag(trustfall_core::ir::FieldRef::ContextField(c)) => c.vertex_id < frontier,
+        Argument::Tag(trustfall_core::ir::FieldRef::FoldSpecificField(f)) => f.fold_root_vid < frontier,
         _ => false,
     };
     let rel: Vec<&'static str> = v.filters.iter().filter_map(name).filter(|(_, l, r)| l.field_name.as_ref() == prop && resolved(r)).map(|(n, _, _)| n).collect();
